@@ -54,6 +54,13 @@ pub struct KCase {
     /// costs are a function of the edge alone (Bellman–Ford oracle applies)
     pub bf_ok: bool,
     pub label: &'static str,
+    /// the `[algorithm]` section the algorithm is deserialised from (the application's path,
+    /// `get_config_serde`); None = the enum is constructed directly from the fields above
+    pub cfg: Option<serde_json::Value>,
+    /// what the generator knows about `cfg`: Some(true) well-formed, Some(false) malformed
+    pub cfg_ok: Option<bool>,
+    /// a `weight_factor` written into the query as arbitrary JSON (overrides `base.query_wf`)
+    pub query_wf_json: Option<serde_json::Value>,
 }
 
 fn sim_real(s: &Sim) -> RouteSimilarityFunction {
@@ -79,7 +86,25 @@ fn underlying(c: &SCase) -> SearchAlgorithm {
     }
 }
 
-fn make_alg(kc: &KCase, sim: &Option<Sim>) -> SearchAlgorithm {
+fn make_alg(kc: &KCase, sim: &Option<Sim>) -> Result<SearchAlgorithm, String> {
+    if let Some(cfg) = &kc.cfg {
+        // the application's path: `config_json.get_config_serde(&CompassConfigurationField::Algorithm, &"TOML")`
+        use routee_compass::app::compass::config::compass_configuration_field::CompassConfigurationField;
+        use routee_compass::app::compass::config::config_json_extension::ConfigJsonExtensions;
+        let mut cfg = cfg.clone();
+        // (the AcceptAll twin of a threshold case: same configuration, similarity replaced)
+        if let (Some(Sim::AcceptAll), Some(o)) = (sim, cfg.as_object_mut()) {
+            if kc.sim.as_ref() != Some(&Sim::AcceptAll) {
+                o.insert("similarity".into(), serde_json::json!({"type": "accept_all"}));
+            }
+        }
+        let root = serde_json::json!({ "algorithm": cfg });
+        return root.get_config_serde::<SearchAlgorithm>(&CompassConfigurationField::Algorithm, &"TOML").map_err(|e| e.to_string());
+    }
+    Ok(make_alg_direct(kc, sim))
+}
+
+fn make_alg_direct(kc: &KCase, sim: &Option<Sim>) -> SearchAlgorithm {
     let similarity = sim.as_ref().map(sim_real);
     let termination = kc.term.as_ref().map(term_real);
     if kc.yen {
@@ -105,6 +130,139 @@ fn inner_source(c: &SCase) -> usize {
     }
 }
 
+/// the algorithm tags of the configuration, outermost first (object form only; the generator nests
+/// in object form)
+fn cfg_tags(kc: &KCase) -> Vec<String> {
+    let mut out = vec![];
+    let mut cur = kc.cfg.as_ref();
+    while let Some(v) = cur {
+        match v.get("type").and_then(|t| t.as_str()) {
+            Some(t) => out.push(t.to_string()),
+            None => break,
+        }
+        cur = v.get("underlying");
+    }
+    out
+}
+
+/// the k-shortest-paths algorithm that actually runs the searches: the innermost one
+fn innermost_is_yen(kc: &KCase) -> bool {
+    let tags: Vec<String> = cfg_tags(kc).into_iter().filter(|t| t == "yens" || t == "ksp_single_via").collect();
+    match tags.last() {
+        Some(t) => t == "yens",
+        None => kc.yen,
+    }
+}
+
+/// Yen's algorithm runs somewhere in this case: child process
+fn uses_yen(kc: &KCase) -> bool {
+    kc.yen || cfg_tags(kc).iter().any(|t| t == "yens")
+}
+
+fn is_nested(kc: &KCase) -> bool {
+    cfg_tags(kc).iter().filter(|t| *t == "yens" || *t == "ksp_single_via").count() >= 2
+}
+
+/// append the final pop of reached targets to the recorded schedules
+fn fix_scheds(kc: &KCase, ex: &mut KExec) {
+    if innermost_is_yen(kc) {
+        let c = &kc.base;
+        let s = inner_source(c);
+        if let Some(t) = inner_target(c) {
+            for (i, sc) in ex.scheds.iter_mut().enumerate() {
+                if !(i == 0 && s == t) {
+                    sc.push(t);
+                }
+            }
+        }
+    } else {
+        fix_scheds_single_via(kc, ex);
+    }
+}
+
+/// an `underlying` k-shortest-paths algorithm configured with k = 0 (and no k in the query) returns no
+/// route, so the algorithm above it has nothing to start from: no route (vertex-oriented) or "no path"
+/// (edge-oriented) is then what the configuration asks for, not a failure of the property
+fn nested_returns_nothing(kc: &KCase) -> bool {
+    if !is_nested(kc) || kc.query_k.is_some() {
+        return false;
+    }
+    let mut cur = kc.cfg.as_ref().and_then(|v| v.get("underlying"));
+    while let Some(v) = cur {
+        if v.get("k").and_then(|k| k.as_u64()) == Some(0) {
+            return true;
+        }
+        cur = v.get("underlying");
+    }
+    false
+}
+
+/// what the generator knows about the outcome before any search runs: Some(kind) = this error
+fn expected_early_error(kc: &KCase) -> Option<&'static str> {
+    if kc.cfg_ok == Some(false) {
+        return Some("cfgerr");
+    }
+    let c = &kc.base;
+    if !reaches_algorithm(c) {
+        return None;
+    }
+    if inner_target(c).is_none() || c.reverse || effective_k(kc).is_none() {
+        return Some("build");
+    }
+    if let Some(w) = &kc.query_wf_json {
+        if w.as_f64().is_none() {
+            return Some("build");
+        }
+    }
+    None
+}
+
+/// the checks on configuration, direction and query fields, independent of the model; true = the
+/// outcome is fully judged here
+fn oracle_early(ctx: &mut Ctx, idx: usize, kc: &KCase, o: &Outcome) -> bool {
+    let got = match o {
+        Outcome::Err(k) => Some(k.as_str()),
+        Outcome::Ok(_) => None,
+    };
+    if kc.cfg.is_some() {
+        ctx.count(if kc.cfg_ok == Some(false) { "algorithm_from_config_malformed" } else if is_nested(kc) { "algorithm_from_config_nested" } else { "algorithm_from_config" });
+    }
+    if kc.cfg_ok == Some(true) && got == Some("cfgerr") {
+        ctx.fail(idx, "config/valid-algorithm-refused", format!("well-formed [algorithm] section refused: {}", kc.cfg.as_ref().unwrap()));
+        return true;
+    }
+    match expected_early_error(kc) {
+        Some("cfgerr") => {
+            if got != Some("cfgerr") {
+                ctx.fail(idx, "config/malformed-algorithm-accepted", format!("malformed [algorithm] section accepted: {}", kc.cfg.as_ref().unwrap()));
+            }
+            true
+        }
+        Some(kind) => {
+            if got != Some(kind) {
+                let key = if kc.base.reverse && inner_target(&kc.base).is_some() { "ksp/reverse-query-answered" } else { "query/malformed-field-accepted" };
+                ctx.fail(idx, key, format!("expected the '{}' error (no destination / reverse direction / k or weight_factor of the wrong type), got {:?}", kind, got.unwrap_or("a result")));
+            }
+            true
+        }
+        None => {
+            if nested_returns_nothing(kc) {
+                ctx.count("nested_underlying_with_k_0");
+                // Ok without routes, or "no path" through the edge-oriented wrapper
+                let fine = match o {
+                    Outcome::Ok(r) => r.routes.len() <= 1,
+                    Outcome::Err(k) => !k.starts_with("panic"),
+                };
+                if !fine {
+                    ctx.fail(idx, "config/nested-k-0-unexpected", format!("{:?}", got));
+                }
+                return true;
+            }
+            false
+        }
+    }
+}
+
 pub struct KExec {
     pub outcome: Outcome,
     /// popped vertices per run_a_star call (the final pop of a reached target is added by `fix_scheds`)
@@ -113,15 +271,23 @@ pub struct KExec {
     pub pops: Vec<usize>,
     /// number of run_a_star calls
     pub runs: usize,
+    /// expansions recorded per run_a_star call (before any final pop is appended)
+    pub expansions: Vec<usize>,
 }
 
 /// run the real KSP algorithm (hooks on).  Only ever called in-process for single-via.
 pub fn exec_ksp(kc: &KCase, b: &Built, sim: &Option<Sim>) -> KExec {
     let c = &kc.base;
-    let alg = make_alg(kc, sim);
+    let alg = match make_alg(kc, sim) {
+        Ok(a) => a,
+        Err(_) => return KExec { outcome: Outcome::Err("cfgerr".into()), scheds: vec![], pops: vec![], runs: 0, expansions: vec![] },
+    };
     let mut query = b.query.clone();
     if let Some(k) = &kc.query_k {
         query["k"] = k.clone();
+    }
+    if let Some(w) = &kc.query_wf_json {
+        query["weight_factor"] = w.clone();
     }
     let dir = if c.reverse { Direction::Reverse } else { Direction::Forward };
     verif_clock::set(clock_of(&c.term));
@@ -169,7 +335,8 @@ pub fn exec_ksp(kc: &KCase, b: &Built, sim: &Option<Sim>) -> KExec {
         }
     };
     let runs = scheds.len();
-    KExec { outcome, scheds, pops, runs }
+    let expansions = scheds.iter().map(|s| s.len()).collect();
+    KExec { outcome, scheds, pops, runs, expansions }
 }
 
 fn clock_of(t: &Term) -> Option<(u64, u64)> {
@@ -188,21 +355,61 @@ fn fix_scheds_single_via(kc: &KCase, ex: &mut KExec) {
     if s == t {
         return;
     }
-    // a failed reverse run no longer fails the query: the result then carries the forward tree alone
-    let both_trees = matches!(&ex.outcome, Outcome::Ok(r) if r.trees.len() == 2);
-    if ex.scheds.len() >= 2 {
-        // the reverse run started, so the forward run returned Ok
-        ex.scheds[0].push(t);
-        // every failure after a successful reverse run happens inside the loop, after a recorded pop
-        if both_trees || !ex.pops.is_empty() {
-            ex.scheds[1].push(s);
-        }
+    // the model reads a schedule only as far as the run goes (a failed run stops before the final pop), so
+    // the final pop of the run's target is appended to both runs whatever became of them
+    if let Some(f) = ex.scheds.get_mut(0) {
+        f.push(t);
+    }
+    if let Some(r) = ex.scheds.get_mut(1) {
+        r.push(s);
+    }
+}
+
+/// the configuration that deserialises to exactly the directly constructed algorithm of the case
+fn direct_cfg_json(kc: &KCase) -> serde_json::Value {
+    let under = match kc.base.astar {
+        None => serde_json::json!({"type": "dijkstra"}),
+        Some(None) => serde_json::json!({"type": "a*"}),
+        Some(Some(w)) => serde_json::json!({"type": "a*", "weight_factor": w}),
+    };
+    let sim = match &kc.sim {
+        None => serde_json::Value::Null,
+        Some(Sim::AcceptAll) => serde_json::json!({"type": "accept_all"}),
+        Some(Sim::EdgeId(t)) => serde_json::json!({"type": "edge_id_cosine_similarity", "threshold": t}),
+        Some(Sim::DistW(t)) => serde_json::json!({"type": "distance_weighted_cosine_similarity", "threshold": t}),
+    };
+    let term = match &kc.term {
+        None => serde_json::Value::Null,
+        Some(KTerm::Exact) => serde_json::json!({"type": "exact"}),
+        Some(KTerm::MaxIt(m)) => serde_json::json!({"type": "max_iteration", "max": m}),
+        Some(KTerm::Factor(f)) => serde_json::json!({"type": "factor", "factor": f}),
+    };
+    serde_json::json!({"type": if kc.yen { "yens" } else { "ksp_single_via" }, "k": kc.k_default, "underlying": under, "similarity": sim, "termination": term})
+}
+
+/// canonical outcome line of a KSP case (`cfgerr`: the configuration did not deserialise)
+pub fn k_outcome_line(o: &Outcome) -> String {
+    match o {
+        Outcome::Err(k) if k == "cfgerr" => "cfgerr".into(),
+        _ => outcome_line(o),
     }
 }
 
 pub fn encode_k(kc: &KCase, b: &Built, scheds: &[Vec<usize>], pops: &[usize]) -> String {
     let c = &kc.base;
     let mut o: Vec<String> = vec![];
+    if kc.cfg.is_some() || kc.query_wf_json.is_some() {
+        // `cfg <algorithm json> <query weight_factor: n | s json>`: the model derives algorithm, k,
+        // similarity, termination and weight factor from these, not from the header fields
+        let cfg = kc.cfg.clone().unwrap_or_else(|| direct_cfg_json(kc));
+        o.push("cfg".into());
+        o.push(jsonproto::enc(&cfg));
+        match (&kc.query_wf_json, c.query_wf) {
+            (Some(w), _) => o.push(format!("s {}", jsonproto::enc(w))),
+            (None, Some(w)) => o.push(format!("s {}", jsonproto::enc(&serde_json::json!(w)))),
+            (None, None) => o.push("n".into()),
+        }
+    }
     o.push(if kc.yen { "yen".into() } else { "sv".into() });
     o.push(kc.k_default.to_string());
     match &kc.query_k {
@@ -540,7 +747,7 @@ fn base_case(edges: Vec<(usize, usize, f64)>, n_v: usize, source: usize, target:
 }
 
 fn kcase(base: SCase, label: &'static str) -> KCase {
-    KCase { base, yen: false, k_default: 2, query_k: None, sim: None, term: None, style: LenStyle::TieHeavy, bf_ok: true, label }
+    KCase { base, yen: false, k_default: 2, query_k: None, sim: None, term: None, style: LenStyle::TieHeavy, bf_ok: true, label, cfg: None, cfg_ok: None, query_wf_json: None }
 }
 
 /// diamond 0 -> {1, 2} -> 3 (upper branch shorter)
@@ -640,6 +847,78 @@ pub fn corpus() -> Vec<KCase> {
     c.style = LenStyle::Generic;
     v.push(c);
     v.extend(yen_corpus());
+    v.extend(cfg_corpus());
+    v
+}
+
+/// the algorithm deserialised from its `[algorithm]` section
+pub fn cfg_corpus() -> Vec<KCase> {
+    let mut v = vec![];
+    let with = |base: SCase, yen: bool, cfg: serde_json::Value, ok: bool, label: &'static str| {
+        let mut c = kcase(base, label);
+        c.yen = yen;
+        c.cfg = Some(cfg);
+        c.cfg_ok = Some(ok);
+        c
+    };
+    // the repaired nesting defect: single-via over a k-shortest-paths `underlying` on the 2 x 3 two-way grid
+    // joined two FORWARD trees (the nested algorithm ignored Direction::Reverse) and returned [e0,e2,e13]
+    // = 0->1, 1->2, 5->2; the reverse run is now refused and the shortest route is returned alone
+    let mut c = with(two_by_three_grid(), false, serde_json::json!({"type": "ksp_single_via", "k": 3, "underlying": {"type": "yens", "k": 2, "underlying": {"type": "dijkstra"}}}), true, "nested-underlying-witness");
+    c.k_default = 3;
+    v.push(c);
+    let mut c = with(two_by_three_grid(), false, serde_json::json!({"type": "ksp_single_via", "k": 3, "underlying": {"type": "ksp_single_via", "k": 2, "underlying": {"type": "dijkstra"}}}), true, "nested-single-via");
+    c.k_default = 3;
+    v.push(c);
+    let mut c = with(two_by_three_grid(), true, serde_json::json!({"type": "yens", "k": 3, "underlying": {"type": "ksp_single_via", "k": 0, "underlying": {"type": "dijkstra"}}}), true, "nested-yens-over-k0");
+    c.k_default = 3;
+    v.push(c);
+    let mut c = with(two_by_three_grid(), false, serde_json::json!({"type": "ksp_single_via", "k": 3, "underlying": {"type": "yens", "k": 2, "underlying": {"type": "ksp_single_via", "k": 0, "underlying": {"type": "dijkstra"}}}}), true, "nested-three-levels");
+    c.k_default = 3;
+    v.push(c);
+    // every field, object and sequence form
+    let mut c = with(
+        two_by_three_grid(),
+        false,
+        serde_json::json!({"type": "ksp_single_via", "k": 4, "underlying": {"type": "a*", "weight_factor": 1.0}, "similarity": {"type": "edge_id_cosine_similarity", "threshold": 0.6}, "termination": {"type": "max_iteration", "max": 9}}),
+        true,
+        "config-all-fields",
+    );
+    c.k_default = 4;
+    c.base.astar = Some(Some(1.0));
+    c.sim = Some(Sim::EdgeId(0.6));
+    c.term = Some(KTerm::MaxIt(9));
+    c.bf_ok = false;
+    v.push(c);
+    let mut c = with(two_by_three_grid(), true, serde_json::json!(["yens", 3, ["dijkstra"], ["accept_all"], ["exact"]]), true, "config-sequence-form");
+    c.k_default = 3;
+    c.sim = Some(Sim::AcceptAll);
+    c.term = Some(KTerm::Exact);
+    v.push(c);
+    // k from the query overrides the configured k
+    let mut c = with(two_by_three_grid(), false, serde_json::json!({"type": "ksp_single_via", "k": 1, "underlying": {"type": "dijkstra"}}), true, "config-k-overridden-by-query");
+    c.k_default = 1;
+    c.query_k = Some(serde_json::json!(3));
+    v.push(c);
+    // malformed
+    for (cfg, l) in [
+        (serde_json::json!({"type": "ksp_single_via", "underlying": {"type": "dijkstra"}}), "config-missing-k"),
+        (serde_json::json!({"type": "yens", "k": 2}), "config-missing-underlying"),
+        (serde_json::json!({"type": "yens", "k": 2.0, "underlying": {"type": "dijkstra"}}), "config-k-float"),
+        (serde_json::json!({"type": "yens", "k": 2, "underlying": {"type": "dijkstra"}, "termination": {"type": "factor", "factor": 1.5}}), "config-factor-float"),
+        (serde_json::json!({"type": "yens", "k": 2, "underlying": {"type": "dijkstra"}, "similarity": {"type": "edge_id_cosine_similarity", "threshold": null}}), "config-threshold-null"),
+        (serde_json::json!(["ksp_single_via", 2, ["dijkstra"]]), "config-sequence-too-short"),
+    ] {
+        v.push(with(diamond(), l.contains("yens"), cfg, false, l));
+    }
+    // a weight_factor of the wrong type in the query: build error
+    let mut c = kcase(diamond(), "query-weight-factor-not-a-number");
+    c.query_wf_json = Some(serde_json::json!("fast"));
+    v.push(c);
+    // a reverse query is refused
+    let mut c = kcase(diamond(), "reverse-query-refused");
+    c.base.reverse = true;
+    v.push(c);
     v
 }
 
@@ -753,6 +1032,18 @@ pub fn yen_corpus() -> Vec<KCase> {
     let mut c = ycase(stale_link_witness(false), 2, "yen-stale-link");
     c.bf_ok = false;
     c.style = LenStyle::Generic;
+    v.push(c);
+    // a candidate whose junction turn has no entry in the turn-delay table is dropped (reorient fails): the
+    // turn (e0, e3) is restricted, so the first search never traverses e3 after e0; the spur search from 1
+    // starts without a previous edge and offers [e3, e4]
+    let mut b = base_case(vec![(0, 1, 1.0), (1, 2, 1.0), (2, 3, 1.0), (1, 4, 2.0), (4, 3, 2.0)], 5, 0, 3);
+    b.feats.push(("time".into(), FeatK::T(TimeUnit::Seconds), 0.0));
+    let mut delays = [Some(1.0); 8];
+    delays[4] = None; // "left"
+    b.access = Acc::Turn { tu: TimeUnit::Seconds, headings: vec![(0, None), (0, None), (0, None), (270, None), (0, None)], delays };
+    b.frontier = vec![Fr::TurnRestriction(vec![(0, 3)])];
+    let mut c = ycase(b, 2, "yen-candidate-retraversal-fails");
+    c.bf_ok = false;
     v.push(c);
     // edge-oriented, A* underlying
     let mut c = ycase(two_by_three_grid(), 2, "yen-grid-edge-oriented");
@@ -1029,7 +1320,226 @@ pub fn case_at(seed: u64, quick: bool, k: usize, corpus: &[KCase]) -> KCase {
         3 | 4 => Some(KTerm::MaxIt(rng.below(8) as u64)),
         _ => Some(KTerm::Factor(rng.below(4) as u64)),
     };
-    KCase { base, yen, k_default, query_k, sim, term, style, bf_ok, label: "" }
+    let mut kc = KCase { base, yen, k_default, query_k, sim, term, style, bf_ok, label: "", cfg: None, cfg_ok: None, query_wf_json: None };
+    // a quarter of the cases build the algorithm from its configuration JSON, as the application does
+    if rng.chance(1, 4) {
+        gen_cfg(&mut rng, &mut kc);
+    }
+    if rng.chance(1, 40) {
+        kc.query_wf_json = Some(match rng.below(4) {
+            0 => serde_json::json!("fast"),
+            1 => serde_json::json!(null),
+            2 => serde_json::json!([1.0]),
+            _ => serde_json::json!(true),
+        });
+    }
+    kc
+}
+
+fn sim_json(rng: &mut Rng, s: &Sim) -> serde_json::Value {
+    let seq = rng.chance(1, 8);
+    match s {
+        Sim::AcceptAll => {
+            if seq {
+                serde_json::json!(["accept_all"])
+            } else {
+                serde_json::json!({"type": "accept_all"})
+            }
+        }
+        Sim::EdgeId(t) => {
+            if seq {
+                serde_json::json!(["edge_id_cosine_similarity", t])
+            } else {
+                serde_json::json!({"type": "edge_id_cosine_similarity", "threshold": t})
+            }
+        }
+        Sim::DistW(t) => {
+            if seq {
+                serde_json::json!(["distance_weighted_cosine_similarity", t])
+            } else {
+                serde_json::json!({"threshold": t, "type": "distance_weighted_cosine_similarity", "comment": "ignored"})
+            }
+        }
+    }
+}
+
+fn term_json_k(rng: &mut Rng, t: &KTerm) -> serde_json::Value {
+    let seq = rng.chance(1, 8);
+    match t {
+        KTerm::Exact => {
+            if seq {
+                serde_json::json!(["exact"])
+            } else {
+                serde_json::json!({"type": "exact"})
+            }
+        }
+        KTerm::MaxIt(m) => {
+            if seq {
+                serde_json::json!(["max_iteration", m])
+            } else {
+                serde_json::json!({"type": "max_iteration", "max": m})
+            }
+        }
+        KTerm::Factor(f) => {
+            if seq {
+                serde_json::json!(["factor", f])
+            } else {
+                serde_json::json!({"type": "factor", "factor": f})
+            }
+        }
+    }
+}
+
+fn underlying_json(rng: &mut Rng, c: &SCase) -> serde_json::Value {
+    match c.astar {
+        None => {
+            if rng.chance(1, 8) {
+                serde_json::json!(["dijkstra"])
+            } else {
+                serde_json::json!({"type": "dijkstra"})
+            }
+        }
+        Some(None) => {
+            if rng.chance(1, 2) {
+                serde_json::json!({"type": "a*"})
+            } else {
+                serde_json::json!({"type": "a*", "weight_factor": null})
+            }
+        }
+        Some(Some(w)) => {
+            if rng.chance(1, 8) {
+                serde_json::json!(["a*", w])
+            } else {
+                serde_json::json!({"type": "a*", "weight_factor": w})
+            }
+        }
+    }
+}
+
+/// the configuration JSON of the case's algorithm: a faithful rendering of its fields (object or
+/// sequence form, optional fields absent / null), a nested k-shortest-paths `underlying`, or a
+/// malformed variant
+fn gen_cfg(rng: &mut Rng, kc: &mut KCase) {
+    let tag = if kc.yen { "yens" } else { "ksp_single_via" };
+    let under = underlying_json(rng, &kc.base);
+    let sim = kc.sim.clone().map(|s| sim_json(rng, &s));
+    let term = kc.term.clone().map(|t| term_json_k(rng, &t));
+    let mut obj = serde_json::Map::new();
+    obj.insert("type".into(), serde_json::json!(tag));
+    obj.insert("k".into(), serde_json::json!(kc.k_default));
+    obj.insert("underlying".into(), under.clone());
+    match &sim {
+        Some(v) => {
+            obj.insert("similarity".into(), v.clone());
+        }
+        None => {
+            if rng.chance(1, 2) {
+                obj.insert("similarity".into(), serde_json::Value::Null);
+            }
+        }
+    }
+    match &term {
+        Some(v) => {
+            obj.insert("termination".into(), v.clone());
+        }
+        None => {
+            if rng.chance(1, 2) {
+                obj.insert("termination".into(), serde_json::Value::Null);
+            }
+        }
+    }
+    let mut cfg = serde_json::Value::Object(obj.clone());
+    kc.cfg_ok = Some(true);
+    match rng.below(10) {
+        0 => {
+            // sequence form: tag, k, underlying, similarity, termination
+            cfg = serde_json::json!([tag, kc.k_default, under, sim.clone().unwrap_or(serde_json::Value::Null), term.clone().unwrap_or(serde_json::Value::Null)]);
+        }
+        1 | 2 => {
+            // malformed
+            kc.cfg_ok = Some(false);
+            let mut o = obj.clone();
+            match rng.below(14) {
+                0 => {
+                    o.remove("k");
+                }
+                1 => {
+                    o.remove("underlying");
+                }
+                2 => {
+                    o.remove("type");
+                }
+                3 => {
+                    o.insert("k".into(), serde_json::json!(kc.k_default as f64 + 0.5));
+                }
+                4 => {
+                    o.insert("k".into(), serde_json::json!(-(kc.k_default as i64) - 1));
+                }
+                5 => {
+                    o.insert("k".into(), serde_json::json!(kc.k_default.to_string()));
+                }
+                6 => {
+                    o.insert("type".into(), serde_json::json!(if kc.yen { "Yens" } else { "single_via" }));
+                }
+                7 => {
+                    o.insert("underlying".into(), serde_json::json!("dijkstra"));
+                }
+                8 => {
+                    o.insert("underlying".into(), serde_json::json!({"type": "astar"}));
+                }
+                9 => {
+                    o.insert("similarity".into(), serde_json::json!({"type": "edge_id_cosine_similarity"}));
+                }
+                10 => {
+                    o.insert("similarity".into(), serde_json::json!({"type": "edge_id_cosine_similarity", "threshold": "0.5"}));
+                }
+                11 => {
+                    o.insert("termination".into(), serde_json::json!({"type": "max_iteration", "max": 2.0}));
+                }
+                12 => {
+                    o.insert("termination".into(), serde_json::json!({"type": "factor"}));
+                }
+                _ => {
+                    o.insert("underlying".into(), serde_json::json!({"type": "a*", "weight_factor": "heavy"}));
+                }
+            }
+            cfg = serde_json::Value::Object(o);
+            if rng.chance(1, 6) {
+                cfg = match rng.below(4) {
+                    0 => serde_json::json!(tag),
+                    1 => serde_json::json!([tag, kc.k_default, under]),
+                    2 => serde_json::json!(null),
+                    _ => serde_json::json!([tag, kc.k_default, under, null, null, null]),
+                };
+            }
+        }
+        3 => {
+            // a k-shortest-paths algorithm as `underlying`
+            let inner_k = *rng.pick(&[0usize, 1, 2, 3]);
+            if kc.yen {
+                // (Yen's spur searches through a nested algorithm are not modelled: only the case in
+                // which the nested algorithm returns no route, inner k = 0 and no k in the query)
+                kc.query_k = None;
+                let inner_tag = if rng.chance(1, 2) { "yens" } else { "ksp_single_via" };
+                let mut o = obj.clone();
+                o.insert("underlying".into(), serde_json::json!({"type": inner_tag, "k": 0, "underlying": under}));
+                cfg = serde_json::Value::Object(o);
+            } else {
+                let inner_tag = if rng.chance(1, 2) { "yens" } else { "ksp_single_via" };
+                let mut inner = serde_json::json!({"type": inner_tag, "k": inner_k, "underlying": under});
+                if let Some(v) = &sim {
+                    if rng.chance(1, 2) {
+                        inner["similarity"] = v.clone();
+                    }
+                }
+                let mut o = obj.clone();
+                o.insert("underlying".into(), inner);
+                cfg = serde_json::Value::Object(o);
+            }
+        }
+        _ => {}
+    }
+    kc.cfg = Some(cfg);
 }
 
 // ---------------------------------------------------------------------------------------------
@@ -1137,20 +1647,13 @@ fn run_yen_child(ctx: &mut Ctx, idx: usize, kc: &KCase, stream: Stream) -> Vec<V
     });
     let mut ex = exec_ksp(kc, &b, &kc.sim);
     let diverged = exhausted.load(Ordering::Relaxed);
-    // a run that reached its target ended by popping it, which the hook does not record.  Which runs did
-    // is not visible in the trace any more (a spur search without a path is skipped, not propagated), and
-    // need not be: the model reads a schedule only as far as the run goes, so the final pop is appended
-    // to every run (a run whose source is the target popped nothing and ignores its schedule)
-    let s = inner_source(c);
-    if let Some(t) = inner_target(c) {
-        for (i, sc) in ex.scheds.iter_mut().enumerate() {
-            if !(i == 0 && s == t) {
-                sc.push(t);
-            }
-        }
-    }
-    let line = encode_k(kc, &b, &ex.scheds, &[]);
-    let out = if diverged { "diverges".to_string() } else { outcome_line(&ex.outcome) };
+    // a run that reached its target ended by popping it, which the hook does not record.  For Yen's
+    // searches, which runs did is not visible in the trace (a failed spur search is skipped), and need not
+    // be: the model reads a schedule only as far as the run goes, so the final pop is appended to every
+    // run (a run whose source is the target popped nothing and ignores its schedule)
+    fix_scheds(kc, &mut ex);
+    let line = encode_k(kc, &b, &ex.scheds, &ex.pops);
+    let out = if diverged { "diverges".to_string() } else { k_outcome_line(&ex.outcome) };
     if stream != Stream::C13 {
         // a search property's KSP stream: only runs that return, judged by that property's own oracle
         if diverged {
@@ -1178,6 +1681,9 @@ fn run_yen_child(ctx: &mut Ctx, idx: usize, kc: &KCase, stream: Stream) -> Vec<V
     ctx.emit(idx, line, out.clone());
     describe_k(ctx, kc);
     ctx.count_n("underlying_searches", ex.runs as u64);
+    if !diverged && oracle_early(ctx, idx, kc, &ex.outcome) {
+        return ex.scheds;
+    }
     let k_eff = effective_k(kc);
     let plain_len = plain_route_len(kc, &plain);
     if diverged {
@@ -1719,7 +2225,7 @@ pub fn prop_case_at(s: Stream, seed: u64, quick: bool, j: usize) -> KCase {
         2 => Some(KTerm::Exact),
         _ => Some(KTerm::MaxIt(rng.below(8) as u64)),
     };
-    KCase { base, yen, k_default, query_k: None, sim, term, style, bf_ok: false, label: "" }
+    KCase { base, yen, k_default, query_k: None, sim, term, style, bf_ok: false, label: "", cfg: None, cfg_ok: None, query_wf_json: None }
 }
 
 /// the property's own oracle on what a KSP query returned (`unlimited`: the outcome of the same query
@@ -1733,7 +2239,7 @@ fn apply_prop_oracle(ctx: &mut Ctx, idx: usize, s: Stream, kc: &KCase, b: &Built
             ctx.count("ksp_outcome_ok");
             ctx.count(&format!("ksp_routes_{}", r.routes.len().min(7)));
             if r.routes.len() >= 2 {
-                ctx.nontrivial(&outcome_line(&ex.outcome));
+                ctx.nontrivial(&k_outcome_line(&ex.outcome));
             }
             // what is judged: every route (single-via and, since its repairs, Yen alike); the forward tree
             let judged = SearchAlgorithmResult {
@@ -1772,13 +2278,11 @@ fn oracle_c10_ksp(ctx: &mut Ctx, idx: usize, kc: &KCase, ex: &KExec, unlimited: 
     if ls.is_empty() || ex.scheds.is_empty() {
         return;
     }
-    // the hook records expansions; `fix_scheds` appended the final pop of a reached target to runs that returned
-    let t = inner_target(c);
-    for (i, sc) in ex.scheds.iter().enumerate() {
-        let expansions = if sc.last().cloned() == t && !sc.is_empty() { sc.len() - 1 } else { sc.len() };
+    // the hook records the expansions of every run_a_star call
+    for (i, expansions) in ex.expansions.iter().enumerate() {
         for l in &ls {
             if let Term::Iters(lim) = l {
-                if expansions as u64 > *lim {
+                if *expansions as u64 > *lim {
                     ctx.fail(idx, "limit/iterations-exceeded", format!("underlying search #{} of the k-shortest-paths query made {} expansions under limit {}", i, expansions, lim));
                 }
             }
@@ -1787,7 +2291,7 @@ fn oracle_c10_ksp(ctx: &mut Ctx, idx: usize, kc: &KCase, ex: &KExec, unlimited: 
     match &ex.outcome {
         Outcome::Ok(r) => {
             let Some(unl) = unlimited else { return };
-            let lim_line = outcome_line(&ex.outcome);
+            let lim_line = k_outcome_line(&ex.outcome);
             let unl_line = outcome_line(unl);
             if lim_line == unl_line {
                 ctx.count("ksp_limited_equals_unlimited");
@@ -1866,7 +2370,7 @@ fn run_single_via_prop(ctx: &mut Ctx, idx: usize, kc: &KCase, s: Stream) {
         }
     }
     let line = format!("ksp {}", encode_k(kc, &b, &ex.scheds, &ex.pops));
-    ctx.emit(idx, line, outcome_line(&ex.outcome));
+    ctx.emit(idx, line, k_outcome_line(&ex.outcome));
     describe_k(ctx, kc);
     let unlimited = if s == Stream::C10 {
         let mut k2 = kc.clone();
@@ -1896,6 +2400,322 @@ pub fn run_prop_stream(ctx: &mut Ctx, s: Stream) {
 }
 
 // ---------------------------------------------------------------------------------------------
+// `kterm`: KspTerminationCriteria — deserialisation from configuration, Display, terminate_search
+
+fn gen_u64_edge(rng: &mut Rng, near: u64) -> u64 {
+    match rng.below(12) {
+        0 => 0,
+        1 => 1,
+        2 => 2,
+        3 => near,
+        4 => near.saturating_sub(1),
+        5 => near.saturating_add(1),
+        6 => 1u64 << 31,
+        7 => (1u64 << 32) + 1,
+        8 => 1u64 << 53,
+        9 => 1u64 << 63,
+        10 => u64::MAX,
+        _ => rng.next() >> rng.below(64),
+    }
+}
+
+fn kterm_case(rng: &mut Rng, hand: Option<(serde_json::Value, Option<bool>, u64, u64)>) -> (serde_json::Value, Option<bool>, u64, u64) {
+    if let Some(h) = hand {
+        return h;
+    }
+    let k = gen_u64_edge(rng, 3);
+    let n = if rng.chance(2, 3) { k } else { gen_u64_edge(rng, k) };
+    let v = gen_u64_edge(rng, k);
+    let (good, name, field) = match rng.below(3) {
+        0 => (serde_json::json!({"type": "exact"}), "exact", ""),
+        1 => (serde_json::json!({"type": "max_iteration", "max": v}), "max_iteration", "max"),
+        _ => (serde_json::json!({"type": "factor", "factor": v}), "factor", "factor"),
+    };
+    match rng.below(10) {
+        0 => {
+            // sequence form
+            let j = if field.is_empty() { serde_json::json!([name]) } else { serde_json::json!([name, v]) };
+            (j, Some(true), k, n)
+        }
+        1 | 2 | 3 => {
+            let bad = match rng.below(12) {
+                0 => serde_json::json!({"max": v, "factor": v}),
+                1 => serde_json::json!({"type": name.to_uppercase(), "max": v, "factor": v}),
+                2 => serde_json::json!({"type": "max_iteration", "max": v as f64 + 0.5}),
+                3 => serde_json::json!({"type": "factor", "factor": -((v % 1000) as i64) - 1}),
+                4 => serde_json::json!({"type": "max_iteration", "max": v.to_string()}),
+                5 => serde_json::json!({"type": "factor", "factor": null}),
+                6 => serde_json::json!({"type": "max_iteration"}),
+                7 => serde_json::json!(name),
+                8 => serde_json::json!([name, v, v]),
+                9 => serde_json::json!({"type": 7}),
+                10 => serde_json::json!({"type": "factor", "factor": 1.0e30}),
+                _ => serde_json::json!(["max_iteration"]),
+            };
+            (bad, Some(false), k, n)
+        }
+        4 => {
+            // unknown keys are ignored
+            let mut j = good.clone();
+            j["note"] = serde_json::json!("ignored");
+            j["k"] = serde_json::json!(3);
+            (j, Some(true), k, n)
+        }
+        _ => (good, Some(true), k, n),
+    }
+}
+
+fn run_kterm(ctx: &mut Ctx, n: usize) {
+    let hand: Vec<(serde_json::Value, Option<bool>, u64, u64)> = vec![
+        // the repaired overflow: factor 2^63 with k = 2 wrapped to 0 (release) / panicked (debug)
+        (serde_json::json!({"type": "factor", "factor": 1u64 << 63}), Some(true), 2, 2),
+        (serde_json::json!({"type": "factor", "factor": u64::MAX}), Some(true), 2, 2),
+        (serde_json::json!({"type": "factor", "factor": u64::MAX}), Some(true), u64::MAX, u64::MAX),
+        (serde_json::json!({"type": "factor", "factor": 0}), Some(true), 0, 0),
+        (serde_json::json!({"type": "factor", "factor": 0}), Some(true), 2, 2),
+        (serde_json::json!({"type": "factor", "factor": 1}), Some(true), 2, 2),
+        (serde_json::json!({"type": "max_iteration", "max": 0}), Some(true), 0, 0),
+        (serde_json::json!({"type": "max_iteration", "max": 1}), Some(true), 2, 2),
+        (serde_json::json!({"type": "max_iteration", "max": 2}), Some(true), 2, 2),
+        (serde_json::json!({"type": "max_iteration", "max": u64::MAX}), Some(true), u64::MAX, u64::MAX),
+        (serde_json::json!({"type": "exact"}), Some(true), 0, 1),
+        (serde_json::json!({"type": "exact"}), Some(true), 1, 1),
+        (serde_json::json!(["exact"]), Some(true), 1, 1),
+        (serde_json::json!(["exact", 1]), Some(false), 1, 1),
+        (serde_json::json!([]), Some(false), 1, 1),
+        (serde_json::json!({}), Some(false), 1, 1),
+    ];
+    let total = hand.len() + n;
+    for j in 0..total {
+        let Some(idx) = ctx.begin() else { continue };
+        let mut rng = Rng::for_case(ctx.seed, 1313, j as u64);
+        let (json, good, k, size) = kterm_case(&mut rng, hand.get(j).cloned());
+        let line = format!("kterm {} {} {}", jsonproto::enc(&json), k, size);
+        let parsed: Result<KspTerminationCriteria, _> = serde_json::from_value(json.clone());
+        ctx.count("kterm_case");
+        let out = match &parsed {
+            Err(_) => {
+                ctx.count("kterm_config_error");
+                if good == Some(true) {
+                    ctx.fail(idx, "ksp-termination/valid-configuration-refused", json.to_string());
+                }
+                "cfgerr".to_string()
+            }
+            Ok(t) => {
+                if good == Some(false) {
+                    ctx.fail(idx, "ksp-termination/malformed-configuration-accepted", json.to_string());
+                }
+                let t2 = t.clone();
+                let res = std::panic::catch_unwind(std::panic::AssertUnwindSafe(|| (t2.to_string(), t2.terminate_search(k as usize, size as usize))));
+                match res {
+                    Err(_) => {
+                        ctx.fail(idx, "ksp-termination/panic", format!("{} terminate_search({}, {})", json, k, size));
+                        "panic".to_string()
+                    }
+                    Ok((text, stop)) => {
+                        // the criteria as documented, in arithmetic that cannot overflow
+                        let (want, want_text) = match t {
+                            KspTerminationCriteria::Exact => (size == k, "terminate with up to k routes found".to_string()),
+                            KspTerminationCriteria::MaxIteration { max } => (size == k && *max >= k, format!("terminate with {} routes found", max)),
+                            KspTerminationCriteria::Factor { factor } => {
+                                (size == k && (*factor as u128) * (size as u128) >= k as u128, format!("terminate with k*{} routes found", factor))
+                            }
+                        };
+                        ctx.count(match t {
+                            KspTerminationCriteria::Exact => "kterm_exact",
+                            KspTerminationCriteria::MaxIteration { .. } => "kterm_max_iteration",
+                            KspTerminationCriteria::Factor { .. } => "kterm_factor",
+                        });
+                        if stop {
+                            ctx.count("kterm_stops");
+                            ctx.nontrivial(&line);
+                        }
+                        if stop != want {
+                            let overflow = matches!(t, KspTerminationCriteria::Factor { factor } if (*factor as u128) * (size as u128) > u64::MAX as u128);
+                            ctx.fail(idx, if overflow { "ksp-termination/factor-overflow" } else { "ksp-termination/wrong-decision" }, format!("{} terminate_search({}, {}) = {} but the criterion says {}", json, k, size, stop, want));
+                        }
+                        if text != want_text {
+                            ctx.fail(idx, "ksp-termination/display", format!("{} displayed as '{}'", json, text));
+                        }
+                        format!("ok {} {}", jsonproto::hex(&text), if stop { 1 } else { 0 })
+                    }
+                }
+            }
+        };
+        ctx.emit(idx, line, out);
+    }
+}
+
+// ---------------------------------------------------------------------------------------------
+// `ksim`: RouteSimilarityFunction — deserialisation from configuration, rank, is_similar, test
+
+fn run_ksim(ctx: &mut Ctx, n: usize) {
+    use routee_compass_core::algorithm::search::edge_traversal::EdgeTraversal;
+    let et = |e: usize| EdgeTraversal { edge_id: EdgeId(e), access_cost: Cost::ZERO, traversal_cost: Cost::ZERO, result_state: vec![] };
+    // hand-written: (config, lengths, a, b)
+    let hand: Vec<(serde_json::Value, Vec<f64>, Vec<usize>, Vec<usize>)> = vec![
+        // routes of different norms: |a|^2 = 9 + 16, |b|^2 = 16 + 144, common edge 1: rank 16 / (5 * sqrt 160)
+        (serde_json::json!({"type": "distance_weighted_cosine_similarity", "threshold": 0.25}), vec![3.0, 4.0, 12.0], vec![0, 1], vec![1, 2]),
+        (serde_json::json!({"type": "distance_weighted_cosine_similarity", "threshold": 0.26}), vec![3.0, 4.0, 12.0], vec![0, 1], vec![1, 2]),
+        (serde_json::json!({"type": "edge_id_cosine_similarity", "threshold": 0.5}), vec![3.0, 4.0, 12.0], vec![0, 1], vec![1, 2]),
+        (serde_json::json!({"type": "edge_id_cosine_similarity", "threshold": 0.5000001}), vec![3.0, 4.0, 12.0], vec![0, 1], vec![1, 2]),
+        // identical routes, thresholds at the boundaries
+        (serde_json::json!({"type": "edge_id_cosine_similarity", "threshold": 1}), vec![1.0; 4], vec![0, 1, 2], vec![0, 1, 2]),
+        (serde_json::json!({"type": "edge_id_cosine_similarity", "threshold": 1}), vec![1.0; 4], vec![0, 1], vec![0, 1]),
+        (serde_json::json!({"type": "edge_id_cosine_similarity", "threshold": 0}), vec![1.0; 4], vec![0, 1], vec![2, 3]),
+        (serde_json::json!({"type": "distance_weighted_cosine_similarity", "threshold": 1.0}), vec![3.0, 4.0, 12.0], vec![0, 1, 2], vec![0, 1, 2]),
+        // empty routes, zero-length edges: 0 / 0
+        (serde_json::json!({"type": "edge_id_cosine_similarity", "threshold": 0}), vec![1.0; 4], vec![], vec![0]),
+        (serde_json::json!({"type": "edge_id_cosine_similarity", "threshold": 0}), vec![1.0; 4], vec![], vec![]),
+        (serde_json::json!({"type": "distance_weighted_cosine_similarity", "threshold": 0}), vec![0.0, 0.0, 5.0], vec![0, 1], vec![0, 2]),
+        (serde_json::json!({"type": "distance_weighted_cosine_similarity", "threshold": -1}), vec![0.0, 0.0, 5.0], vec![0, 1], vec![0, 1]),
+        // an edge twice in a route counts once; an unknown edge id is a network error for the weighted variant only
+        (serde_json::json!({"type": "edge_id_cosine_similarity", "threshold": 0.7}), vec![1.0; 4], vec![0, 0, 1], vec![0, 1, 1]),
+        (serde_json::json!({"type": "distance_weighted_cosine_similarity", "threshold": 0.7}), vec![1.0; 2], vec![0, 7], vec![0, 1]),
+        (serde_json::json!({"type": "edge_id_cosine_similarity", "threshold": 0.7}), vec![1.0; 2], vec![0, 7], vec![0, 1]),
+        (serde_json::json!({"type": "accept_all"}), vec![1.0; 2], vec![0, 1], vec![0, 1]),
+        (serde_json::json!(["accept_all"]), vec![1.0; 2], vec![0, 9], vec![0, 1]),
+        (serde_json::json!({"type": "accept_all", "threshold": "x"}), vec![1.0; 2], vec![0], vec![1]),
+        (serde_json::json!({"type": "edge_id_cosine_similarity"}), vec![1.0; 2], vec![0], vec![1]),
+    ];
+    let total = hand.len() + n;
+    for j in 0..total {
+        let Some(idx) = ctx.begin() else { continue };
+        let mut rng = Rng::for_case(ctx.seed, 1314, j as u64);
+        let (json, lens, a, b, good): (serde_json::Value, Vec<f64>, Vec<usize>, Vec<usize>, Option<bool>) = if let Some(h) = hand.get(j) {
+            (h.0.clone(), h.1.clone(), h.2.clone(), h.3.clone(), None)
+        } else {
+            let n_e = 2 + rng.below(9);
+            // integer lengths: every sum of products is exact, so the rank does not depend on the order in
+            // which the code's HashMap / HashSet iterate
+            let lens: Vec<f64> = (0..n_e).map(|_| if rng.chance(1, 8) { 0.0 } else { (1 + rng.below(40)) as f64 }).collect();
+            let route = |rng: &mut Rng| -> Vec<usize> {
+                let len = rng.below(7);
+                (0..len).map(|_| if rng.chance(1, 40) { n_e + rng.below(3) } else { rng.below(n_e) }).collect()
+            };
+            let a = route(&mut rng);
+            let b = if rng.chance(1, 6) { a.clone() } else { route(&mut rng) };
+            let thr = match rng.below(8) {
+                0 => serde_json::json!(0),
+                1 => serde_json::json!(1),
+                2 => serde_json::json!(1.0),
+                3 => serde_json::json!(-0.5),
+                4 => serde_json::json!(1.5),
+                _ => serde_json::json!((rng.below(101) as f64) / 100.0),
+            };
+            let (json, good) = match rng.below(12) {
+                0 => (serde_json::json!({"type": "accept_all"}), true),
+                1 => (serde_json::json!({"type": "edge_id_cosine_similarity", "threshold": thr.to_string()}), false),
+                2 => (serde_json::json!({"type": "distance_weighted_cosine", "threshold": thr}), false),
+                3 => (serde_json::json!(["distance_weighted_cosine_similarity", thr]), true),
+                4 | 5 | 6 => (serde_json::json!({"type": "edge_id_cosine_similarity", "threshold": thr}), true),
+                _ => (serde_json::json!({"threshold": thr, "type": "distance_weighted_cosine_similarity"}), true),
+            };
+            (json, lens, a, b, Some(good))
+        };
+        let mut o: Vec<String> = vec!["ksim".into(), jsonproto::enc(&json), lens.len().to_string()];
+        o.extend(lens.iter().map(|x| fbits(*x)));
+        o.push(a.len().to_string());
+        o.extend(a.iter().map(|x| x.to_string()));
+        o.push(b.len().to_string());
+        o.extend(b.iter().map(|x| x.to_string()));
+        let line = o.join(" ");
+        ctx.count("ksim_case");
+        let parsed: Result<RouteSimilarityFunction, _> = serde_json::from_value(json.clone());
+        let out = match parsed {
+            Err(_) => {
+                ctx.count("ksim_config_error");
+                if good == Some(true) {
+                    ctx.fail(idx, "similarity/valid-configuration-refused", json.to_string());
+                }
+                "cfgerr".to_string()
+            }
+            Ok(f) => {
+                if good == Some(false) {
+                    ctx.fail(idx, "similarity/malformed-configuration-accepted", json.to_string());
+                }
+                // a graph with these edge lengths (a chain; the similarity functions only read `distance`)
+                let edges: Vec<(usize, usize, f64)> = lens.iter().enumerate().map(|(i, l)| (i, i + 1, *l)).collect();
+                let c = base_case(edges, lens.len() + 1, 0, lens.len());
+                let Ok(bt) = build(&c) else { continue };
+                let ra: Vec<EdgeTraversal> = a.iter().map(|e| et(*e)).collect();
+                let rb: Vec<EdgeTraversal> = b.iter().map(|e| et(*e)).collect();
+                let (pa, pb): (Vec<&EdgeTraversal>, Vec<&EdgeTraversal>) = (ra.iter().collect(), rb.iter().collect());
+                let f2 = f.clone();
+                let res = std::panic::catch_unwind(std::panic::AssertUnwindSafe(|| {
+                    let rank = f2.rank_similarity(&pa, &pb, &bt.si);
+                    let rank_rev = f2.rank_similarity(&pb, &pa, &bt.si);
+                    let test = f2.clone().test_similarity(&pa, &pb, &bt.si);
+                    (rank, rank_rev, test)
+                }));
+                match res {
+                    Err(_) => {
+                        ctx.fail(idx, "similarity/panic", format!("{} a = {:?} b = {:?}", json, a, b));
+                        "panic".to_string()
+                    }
+                    Ok((Ok(rank), Ok(rank_rev), Ok(test))) => {
+                        let similar = f.is_similar(rank);
+                        // independent computation: sorted distinct edge ids, weights by variant
+                        let weighted = matches!(f, RouteSimilarityFunction::DistanceWeightedCosineSimilarity { .. });
+                        let w = |e: usize| if weighted { lens[e] } else { 1.0 };
+                        let want = match f {
+                            RouteSimilarityFunction::AcceptAll => 0.0,
+                            _ => cosine(&a, &b, &w),
+                        };
+                        let same = |x: f64, y: f64| (x.is_nan() && y.is_nan()) || (x - y).abs() <= 1e-12 * x.abs().max(y.abs()).max(1.0);
+                        if !same(rank, want) {
+                            ctx.fail(idx, "similarity/rank-differs", format!("{} a = {:?} b = {:?} lengths {:?}: rank {} but the cosine of the two routes is {}", json, a, b, lens, rank, want));
+                        }
+                        if !same(rank, rank_rev) {
+                            ctx.fail(idx, "similarity/rank-not-symmetric", format!("{} a = {:?} b = {:?}: {} vs {}", json, a, b, rank, rank_rev));
+                        }
+                        let thr = match f {
+                            RouteSimilarityFunction::AcceptAll => None,
+                            RouteSimilarityFunction::EdgeIdCosineSimilarity { threshold } | RouteSimilarityFunction::DistanceWeightedCosineSimilarity { threshold } => Some(threshold),
+                        };
+                        let want_similar = thr.map_or(false, |t| rank >= t);
+                        if similar != want_similar || test != similar {
+                            ctx.fail(idx, "similarity/decision-differs", format!("{} rank {}: is_similar {} test_similarity {}", json, rank, similar, test));
+                        }
+                        ctx.count(match f {
+                            RouteSimilarityFunction::AcceptAll => "ksim_accept_all",
+                            RouteSimilarityFunction::EdgeIdCosineSimilarity { .. } => "ksim_edge_id",
+                            RouteSimilarityFunction::DistanceWeightedCosineSimilarity { .. } => "ksim_distance_weighted",
+                        });
+                        if rank.is_nan() {
+                            ctx.count("ksim_rank_nan");
+                        } else if rank > 0.0 && rank < 0.999 {
+                            ctx.count("ksim_rank_strictly_between_0_and_1");
+                            ctx.nontrivial(&line);
+                        }
+                        if similar {
+                            ctx.count("ksim_similar");
+                        }
+                        format!("ok {} {} {}", fbits(rank), if similar { 1 } else { 0 }, if test { 1 } else { 0 })
+                    }
+                    Ok((r1, _, r3)) => {
+                        let e = match (r1, r3) {
+                            (Err(e), _) => err_kind(&e),
+                            (_, Err(e)) => err_kind(&e),
+                            _ => "internal".to_string(),
+                        };
+                        ctx.count(&format!("ksim_err_{}", e));
+                        // only an edge id outside the graph, and only when lengths are read, may fail
+                        let unknown = a.iter().chain(b.iter()).any(|x| *x >= lens.len());
+                        let weighted = matches!(f, RouteSimilarityFunction::DistanceWeightedCosineSimilarity { .. });
+                        if !(unknown && weighted && e == "network") {
+                            ctx.fail(idx, "similarity/unexpected-error", format!("{} a = {:?} b = {:?}: {}", json, a, b, e));
+                        }
+                        format!("err {}", e)
+                    }
+                }
+            }
+        };
+        ctx.emit(idx, line, out);
+    }
+}
+
+// ---------------------------------------------------------------------------------------------
 
 fn run_single_via(ctx: &mut Ctx, idx: usize, kc: &KCase) {
     let c = &kc.base;
@@ -1907,7 +2727,7 @@ fn run_single_via(ctx: &mut Ctx, idx: usize, kc: &KCase) {
         }
     };
     let mut ex = exec_ksp(kc, &b, &kc.sim);
-    fix_scheds_single_via(kc, &mut ex);
+    fix_scheds(kc, &mut ex);
     if let Outcome::Ok(r) = &ex.outcome {
         if threshold_unstable(kc, r) {
             ctx.count("skipped_threshold_within_1e-9_of_a_rank");
@@ -1915,9 +2735,12 @@ fn run_single_via(ctx: &mut Ctx, idx: usize, kc: &KCase) {
         }
     }
     let line = encode_k(kc, &b, &ex.scheds, &ex.pops);
-    let out = outcome_line(&ex.outcome);
+    let out = k_outcome_line(&ex.outcome);
     ctx.emit(idx, line, out.clone());
     describe_k(ctx, kc);
+    if oracle_early(ctx, idx, kc, &ex.outcome) {
+        return;
+    }
     let k_eff = effective_k(kc);
     // the plain underlying search on the same query: is the query answerable at all?
     let plain = {
@@ -2036,12 +2859,14 @@ pub fn run(ctx: &mut Ctx) -> &'static str {
     for k in 0..total {
         let Some(idx) = ctx.begin() else { continue };
         let kc = case_at(ctx.seed, ctx.quick(), k, &corpus);
-        if kc.yen {
+        if uses_yen(&kc) {
             yen_items.push((idx, kc));
         } else {
             run_single_via(ctx, idx, &kc);
         }
     }
     run_yen_batch(ctx, yen_items);
+    run_kterm(ctx, ctx.n(300, 6000));
+    run_ksim(ctx, ctx.n(500, 10000));
     "diamond chains, grids, ladders, spur paths and random digraphs with tie-heavy / generic / metric lengths; single-via and Yen (Yen only in child processes under a 1 GiB address-space limit and a 2 s timeout); k = 0..6 from configuration and from the query (also non-integer); AcceptAll (explicit and default), edge-id and distance-weighted cosine thresholds; Exact / MaxIteration / Factor; Dijkstra and A* underlying; vertex and edge orientation; turn delays, turn restrictions, other frontier models and termination limits; non-trivial = successful query returning at least two routes, distinct by full output"
 }
